@@ -1,7 +1,9 @@
 ---------------------------- MODULE MC_Pipeline -----------------------------
 EXTENDS Pipeline
-Fl(c, b, l) == [check |-> c, backup |-> b, list |-> l, nl |-> "auto"]
-FlU(c, b, l) == [check |-> c, backup |-> b, list |-> l, nl |-> "unix"]
+Fl(c, b, l) == [check |-> c, backup |-> b, list |-> l, nl |-> "auto", ex |-> FALSE]
+\* `--emit files` spelled out on the command line
+FlE(b, l) == [check |-> FALSE, backup |-> b, list |-> l, nl |-> "auto", ex |-> TRUE]
+FlU(c, b, l) == [check |-> c, backup |-> b, list |-> l, nl |-> "unix", ex |-> FALSE]
 MCCombos == {<<"files", Fl(FALSE, FALSE, FALSE)>>, <<"files", Fl(FALSE, TRUE, FALSE)>>,
              <<"files", Fl(FALSE, FALSE, TRUE)>>, <<"files", Fl(TRUE, FALSE, FALSE)>>,
              <<"files", Fl(TRUE, FALSE, TRUE)>>, <<"stdout", Fl(FALSE, FALSE, FALSE)>>,
@@ -14,7 +16,8 @@ MCCombos == {<<"files", Fl(FALSE, FALSE, FALSE)>>, <<"files", Fl(FALSE, TRUE, FA
              <<"files", Fl(TRUE, TRUE, FALSE)>>, <<"files", Fl(TRUE, TRUE, TRUE)>>,
              <<"stdout", Fl(FALSE, TRUE, FALSE)>>, <<"json", Fl(FALSE, TRUE, FALSE)>>,
              <<"checkstyle", Fl(FALSE, TRUE, FALSE)>>, <<"modified", Fl(FALSE, TRUE, FALSE)>>,
-             <<"files", Fl(FALSE, TRUE, TRUE)>>}
+             <<"files", Fl(FALSE, TRUE, TRUE)>>,
+             <<"files", FlE(FALSE, FALSE)>>, <<"files", FlE(TRUE, FALSE)>>, <<"files", FlE(TRUE, TRUE)>>}
 MCCombosSmall == {<<"files", Fl(FALSE, FALSE, FALSE)>>, <<"files", Fl(FALSE, TRUE, FALSE)>>,
                   <<"files", Fl(TRUE, FALSE, FALSE)>>, <<"json", Fl(FALSE, FALSE, FALSE)>>}
 =============================================================================
